@@ -18,6 +18,7 @@ judged by termination-agnostic life-cycle rules over the recorded history:
 import asyncio
 import os
 import signal
+import sys
 
 from .. import core, probes, vloop
 
@@ -78,6 +79,7 @@ FAULTS = [
 ]
 CAUSES_R = ['none', 'shutdown', 'abort', 'ev_shutdown', 'ev_abort', 'handler', 'calc',
             'abort_before_start', 'ev_shutdown_at_init', 'ev_abort_at_init']
+CAUSES_N = ['sigterm', 'cancel_run', 'shutdown', 'ev_shutdown', 'abort', 'handler', 'calc', 'none']
 CAUSES_U = ['sup_return', 'sup_raise', 'sigterm', 'cancel_run', 'shutdown', 'ev_shutdown',
             'abort']
 INSTANTS = {'early': 0.0, 'async_init': 1.5, 'running': 6.0}
@@ -304,7 +306,12 @@ def run_case(case, ctx):
 
     # SIGTERM arriving when edzed.run() has no handler installed must not kill the worker
     def fallback(signo, frame):
-        hist.log('sigterm_unhandled')
+        # edzed's own handler calls the previously installed handler as well (chaining)
+        caller = sys._getframe(1).f_code
+        if caller.co_name == '_handler' and '/edzed/' in caller.co_filename:
+            hist.log('sigterm_chained')
+        else:
+            hist.log('sigterm_unhandled')
     old_handler = signal.signal(signal.SIGTERM, fallback)
 
     async def main(loop):
@@ -359,7 +366,9 @@ def run_case(case, ctx):
 
                 async def idle():
                     await asyncio.sleep(T_END)
-                sup.append(idle())
+                if mode == 'U':
+                    sup.append(idle())
+                # mode 'N': run() without supporting coroutines executes run_forever() itself
                 runtask = asyncio.create_task(edzed.run(*sup), name='vf: runtask')
                 endtask = runtask
             direct = {'shutdown', 'abort', 'ev_shutdown', 'ev_abort', 'handler', 'calc', 'sigterm',
@@ -385,7 +394,7 @@ def run_case(case, ctx):
                 await asyncio.sleep(T_END)
                 if not endtask.done():
                     hist.log('cause', 'final_shutdown')
-                    if mode == 'R':
+                    if mode in ('R', 'N'):
                         try:
                             await circuit.shutdown()
                         except BaseException:   # pylint: disable=broad-except
@@ -534,7 +543,20 @@ def judge(case, hist, state, res, ctx):
                              f"timers {res['pending_timers']}")
     if res['pending_user_tasks']:
         raise core.Violation('task-pending-after-end', f"{where}: {res['pending_user_tasks']}")
-    harness_kinds = ('cause', 'cause_exc', 'traffic_refused', 'shutdown_exc', 'sigterm_unhandled')
+    harness_kinds = ('cause', 'cause_exc', 'traffic_refused', 'shutdown_exc', 'sigterm_unhandled',
+                     'sigterm_chained')
+    # SIGTERM while edzed.run() is still at work (incl. its wait for the end of the clean-up)
+    # must be caught by its handler: the default action would kill the process at once
+    if case['mode'] in ('U', 'N'):
+        lost = [e for e in E if e[2] == 'sigterm_unhandled' and e[0] < end_seq]
+        if any(k == 'sigterm' for k, _t in state['fired']):
+            ctx.count('sigterm_handler_checked')
+        if lost:
+            raise core.Violation(
+                'sigterm-not-caught-while-run-is-active',
+                f"{where}: SIGTERM at +{lost[0][1] - state.get('t0', 0):.3f}s found no edzed handler "
+                "installed although run() had not returned yet (default action: the process "
+                "dies, no clean-up)")
     late = [e for e in E if e[0] > end_seq and e[1] > res['end_vt'] + 1e-9
             and e[2] not in harness_kinds]
     if late:
@@ -619,6 +641,14 @@ def classify(case, key, state):
     """Mechanism key of a violation (known findings are keyed by mechanism, see DESIGN.md)."""
     fired = [k for k, _t in state['fired']]
     first_cancel = next((t for k, t in state['fired'] if k == 'cancel_run'), None)
+    if case['mode'] == 'N' and first_cancel is not None:
+        # run() without coroutines: its task IS the simulation task.  Was it cancelled while the
+        # clean-up (started by an earlier cause or fault) was already in progress?
+        cleanup_t = next((e[1] for e in state.get('entries', ()) if e[2] == 'stop_enter'), None)
+        end_t = next((e[1] for e in state.get('entries', ()) if e[2] == 'END'), float('inf'))
+        cancels = [t for k, t in state['fired'] if k == 'cancel_run']
+        if cleanup_t is not None and any(cleanup_t - 1e-9 <= t <= end_t + 1e-9 for t in cancels):
+            return 'run-without-coroutines-cancelled-during-cleanup-aborts-the-cleanup'
     if case['mode'] == 'U' and first_cancel is not None:
         t0 = state.get('t0', 0.0)
         if case.get('second') == 'cancel_run' and fired.index('cancel_run') > 0:
@@ -635,6 +665,7 @@ def run_one(case, ctx):
     try:
         nontrivial = judge(case, hist, state, res, ctx)
     except core.Violation as v:
+        state['entries'] = hist.entries
         v.key = classify(case, v.key, state)
         ctx.violation(case, v.key, v.msg, history=hist.dump(200))
         ctx.case_done(case, True)
@@ -660,6 +691,11 @@ def gen(ctx):
                 if quick and fault is not None and inst == 'early':
                     continue
                 cases.append({'mode': 'U', 'fault': fault, 'cause': cause, 'instant': inst})
+        for cause in CAUSES_N:
+            for inst in ['early', 'async_init', 'running']:
+                if quick and fault is not None and inst != 'running':
+                    continue
+                cases.append({'mode': 'N', 'fault': fault, 'cause': cause, 'instant': inst})
     # second cause while the clean-up of the first one is in progress
     for fault in (None, ('a1', 'stop_async_never'), ('m2', 'stop_async_raise'), ('s0', 'stop')):
         for first in ('shutdown', 'abort', 'ev_shutdown', 'handler'):
@@ -669,6 +705,10 @@ def gen(ctx):
         for first in ('sup_return', 'sigterm', 'abort'):
             for second in ('sigterm', 'cancel_run', 'shutdown', 'abort'):
                 cases.append({'mode': 'U', 'fault': fault, 'cause': first, 'instant': 'running',
+                              'second': second})
+        for first in ('cancel_run', 'sigterm', 'abort'):
+            for second in ('sigterm', 'cancel_run', 'shutdown', 'abort'):
+                cases.append({'mode': 'N', 'fault': fault, 'cause': first, 'instant': 'running',
                               'second': second})
     nperturb = 1 if quick else 12
     out = []
